@@ -486,6 +486,23 @@ def oracle(ctx, factor, seeds):
             g_ = type(e).__name__
         if g_ != want:
             o.fail(key, '%s: got %s, expected %s (a power of a Constant is a constant coefficient)' % (key, g_, want), got=str(g_))
+    # a wedge with a factor that vanishes by the laws (d d = 0, delta delta = 0, d of a top-degree form,
+    # delta of a 0-form) is 0 — whichever zero object (int 0 or S.Zero) the operators return for it
+    # (seeded change C19-6 tested `is S.Zero`)
+    for key, got in (
+            ('wedge-zero:wedge(d(d(u)),w)', lambda: W(D(D(u13)), w13)),
+            ('wedge-zero:wedge(w,delta(delta(u)))', lambda: W(w13, DL(DL(u13)))),
+            ('wedge-zero:wedge(d(top),w)', lambda: W(D(t33), w13)),
+            ('wedge-zero:wedge(delta(z0),2*w)', lambda: W(DL(z03), 2 * w13)),
+            ('wedge-zero:wedge(2*w,d(c*top))', lambda: W(2 * w13, D(c * t33)))):
+        o.evaluations += 1
+        o.count('witness:wedge-zero')
+        try:
+            g_ = got()
+        except Exception as e:
+            g_ = type(e).__name__
+        if g_ != 0:
+            o.fail(key, '%s: got %r, expected 0' % (key, g_), got=str(g_))
     for i in range(nprog):
         n = ctx.rng.randint(1, 6)
         progs.append((n, Gen(ctx.rng, n, maxdepth).prog()))
